@@ -20,6 +20,7 @@ import (
 	"testing"
 	"time"
 
+	"github.com/daeuniverse/dae/component/sniffing"
 	"golang.org/x/sys/unix"
 )
 
@@ -88,6 +89,8 @@ func (c *c05CopyCase) op() string {
 		st = "pre:" + c05Lit(c.content).tok()
 	case "buf":
 		st = "buf:" + c05Lit(c.content).tok()
+	case "snf":
+		st = "snf:" + c05Lit(c.content).tok() + ":0"
 	}
 	toks := make([]string, len(c.chunks))
 	for i, ch := range c.chunks {
@@ -133,7 +136,7 @@ func c05RunCopy(t *testing.T, c *c05CopyCase) string {
 		side.local = &net.TCPAddr{IP: net.IPv4(127, 0, 0, 1), Port: 1}
 		side.remote = &net.TCPAddr{IP: net.IPv4(127, 0, 0, 1), Port: 2}
 		srcBase = side
-		if c.stack == "buf" {
+		if c.stack == "buf" || c.stack == "snf" {
 			_, _ = peer.Write(first)
 		}
 		writeOne = func(i int) { _, _ = peer.Write(c.chunks[i].bytes()) }
@@ -156,7 +159,7 @@ func c05RunCopy(t *testing.T, c *c05CopyCase) string {
 		if !c.srcTCP {
 			srcBase = c05Opaque{side}
 		}
-		if c.stack == "buf" {
+		if c.stack == "buf" || c.stack == "snf" {
 			_, _ = peer.Write(first)
 			if !c05WaitInq(side, len(first)) {
 				return "harness:inq-timeout"
@@ -193,6 +196,19 @@ func c05RunCopy(t *testing.T, c *c05CopyCase) string {
 			return fmt.Sprintf("harness:buffered=%d want %d", br.Buffered(), len(c.content))
 		}
 		src = &bufioConn{Conn: srcBase, reader: br}
+	case "snf":
+		// the production wiring for sniffable traffic: prefetch (16 bytes), ConnSniffer over the
+		// prefixedConn, SniffTcp with the whole request already queued
+		probe, _, ready, err := prefetchForTcpSniff(srcBase, 500*time.Millisecond, tcpSniffPrefetchBytes)
+		if err != nil || !ready {
+			return "harness:prefetch"
+		}
+		sn := sniffing.NewConnSniffer(probe, 500*time.Millisecond)
+		defer func() { _ = sn.Close() }()
+		if _, err := sn.SniffTcp(); err != nil {
+			return "harness:sniff:" + err.Error()
+		}
+		src = sn
 	}
 	switch {
 	case c.srcPlain:
@@ -237,7 +253,7 @@ func c05RunCopy(t *testing.T, c *c05CopyCase) string {
 
 func c05GenCopyCase(r *VRand, stats *VStats) *c05CopyCase {
 	c := &c05CopyCase{eof: true, useRec: r.Bool()}
-	c.stack = []string{"plain", "pre", "pre", "buf", "buf"}[r.Intn(5)]
+	c.stack = []string{"plain", "pre", "pre", "buf", "buf", "snf", "snf"}[r.Intn(7)]
 	switch r.Intn(4) {
 	case 0:
 		c.srcPlain = true
@@ -268,6 +284,15 @@ func c05GenCopyCase(r *VRand, stats *VStats) *c05CopyCase {
 		}
 		if c.stack == "buf" && len(c.content) == 0 {
 			c.skipped = 0
+		}
+	}
+	if c.stack == "snf" {
+		// a complete request / hello, so that the sniffers answer at once
+		c.skipped = 0
+		if r.Bool() {
+			c.content = []byte("GET /index.html HTTP/1.1\r\nHost: www.example.com\r\nUser-Agent: x\r\n\r\n")
+		} else {
+			c.content = c05ClientHello(r, "tls.example.com")
 		}
 	}
 	nch := r.Intn(6)
